@@ -126,6 +126,8 @@ FocusTable == [
   ptagdflt |-> [p |-> <<"%", "TAG", "sp", "!", "sp", "w", ":", "lf", "-", "-", "-", "sp", "!", "w", "lf", "-", "-", "-", "sp">>, n |-> 3, m |-> 4,
                 a |-> {"!", "w", "sp", "lf", ":"}],
   pindentless |-> [p |-> <<"w", ":", "lf", "-">>, n |-> 4, m |-> 6, a |-> {"w", "sp", "lf", "-", ":"}],
+  pbom     |-> [p |-> <<"bom">>, n |-> 3, m |-> 4, a |-> {"w", "sp", "lf", "-", ":", "#", "bom"}],
+  pnested  |-> [p |-> <<"-", "sp", "-", "sp", "|">>, n |-> 4, m |-> 6, a |-> {"w", "sp", "lf", "1", "2", "-"}],
   pindic   |-> [p |-> <<>>, n |-> 3, m |-> 3, a |-> {"&", "*", "!", "|", ">", "'", "dq", "%", "@", "bt", "w", "lf", ".", ":", "sp", "-"}],
   file     |-> [p |-> <<>>, n |-> 0, m |-> 0, a |-> {}]]
 
